@@ -40,6 +40,8 @@ def cases(tier: str, seed: int) -> List[Dict[str, Any]]:
     # directed: real module-level import cycles of the "import at the bottom" idiom around a single-re-exporter move
     for i in range(len(_DIRECTED_PARAMS)):
         out.append({'part': 'D', 'idx': i})
+    for i in range(len(_DIRECTED_STAR)):
+        out.append({'part': 'D', 'star': i})
     from vf.gen import corpus
     r = core.rng(seed, 'C06', 'corpus')
     cands = [p for p, nf, size in corpus.roots() if nf >= 3 and size < (300_000 if tier == 'quick' else 1_500_000)]
@@ -70,6 +72,24 @@ def _directed_sources(reexp: str, back: str, consumer: str, where: str) -> Dict[
             'import-api': f'import pkg.api\nclass Y(pkg.api.{exported}):\n    pass\n',
             'from-pkg': f'from pkg import api as A\nclass Y(A.{exported}):\n    pass\nclass Y2(A.ApiLocal):\n    pass\n'}[consumer]
     return {'pkg/__init__.py': '"""Package."""\n', 'pkg/_impl.py': impl, 'pkg/api.py': api, 'pkg/user.py': user, 'pkg/zlast.py': 'from pkg.user import Y\nclass W(Y):\n    pass\n'}
+
+
+# second family: a star import inside the cycle (a <-> b), and a module outside the cycle that star-imports b as well
+_DIRECTED_STAR = list(_it.product(['bottom', 'middle'], ['import pkg.a', 'from pkg import a', 'from . import a'], ['from pkg.b import *', 'from .b import *'], [False, True]))
+
+
+def _directed_star_sources(where: str, back: str, tstyle: str, with_all: bool) -> Dict[str, str]:
+    b = 'class Base:\n    """The base."""\n    def meth(self):\n        """doc of Base.meth"""\n'
+    if where == 'middle':
+        b += back + '\n'
+    b += 'class Late(Base):\n    """Defined after the back import."""\n'
+    if where == 'bottom':
+        b += back + '\n'
+    if with_all:
+        b += '__all__ = ["Base", "Late"]\n'
+    a = 'from pkg.b import *\nclass InA(Base):\n    def meth(self): pass\n'
+    t = f'{tstyle}\nclass T(Base):\n    def meth(self): pass\nclass T2(Late):\n    pass\n'
+    return {'pkg/__init__.py': '"""Package."""\n', 'pkg/a.py': a, 'pkg/b.py': b, 'pkg/t.py': t}
 
 
 def worker_init() -> None:
@@ -315,16 +335,20 @@ def run_case(case: Dict[str, Any]) -> core.Res:
         import shutil
         import tempfile
         from pathlib import Path
-        params = _DIRECTED_PARAMS[case['idx']]
-        srcs = _directed_sources(*params)
+        if 'star' in case:
+            params = _DIRECTED_STAR[case['star']]
+            srcs = _directed_star_sources(*params)
+        else:
+            params = _DIRECTED_PARAMS[case['idx']]
+            srcs = _directed_sources(*params)
         base = Path(tempfile.mkdtemp(prefix='vf06d-'))
         try:
             for rel, text in srcs.items():
                 pth = base / rel
                 pth.parent.mkdir(parents=True, exist_ok=True)
                 pth.write_text(text)
-            label = 'directed-cycle:' + '/'.join(params)
-            n = _run_orders(res, [base / 'pkg'], label, 24, True, {'project': label, 'sources': srcs}, core.rng('C06', 'D', case['idx']), attribute=False)
+            label = 'directed-cycle:' + '/'.join(str(x) for x in params)
+            n = _run_orders(res, [base / 'pkg'], label, 24, True, {'project': label, 'sources': srcs}, core.rng('C06', 'D', case.get('idx', case.get('star'))), attribute=False)
             res.c('directed_cycle_projects')
             res.c('evaluations')
         finally:
